@@ -44,6 +44,7 @@ type Fld struct {
 	Pairs    []Pair
 	Target   string // lengthOf target / checksum algorithm
 	AttrForm bool   // length/checksum written as attribute + plain field
+	charKeys bool   // (generator-internal) a basic key field whose match keys are one-character strings
 }
 
 type Pkt struct {
@@ -73,6 +74,7 @@ type Prog struct {
 	Metas       []*MetaBlock
 	Pkts        []*Pkt // textual order
 	Semicolons  bool
+	Compact     int // 0 = one construct per line; 1 = the whole program on one line; 2 = several packets per line
 }
 
 var intTypes = []string{"u8", "u16", "u32", "u64", "i8", "i16", "i32", "i64"}
@@ -173,6 +175,12 @@ func GenProgSized(seed uint64, big bool) *Prog {
 	g := &gen{r: NewRng(seed), used: map[string]bool{}, big: big}
 	r := g.r
 	p := &Prog{Semicolons: r.Chance(3, 4)}
+	switch r.Intn(14) {
+	case 0:
+		p.Compact = 1
+	case 1, 2:
+		p.Compact = 2
+	}
 	// options
 	if r.Chance(1, 4) {
 		p.NoOptBlock = true
@@ -470,11 +478,16 @@ func (g *gen) genPacket(names []string, idx int) *Pkt {
 			key = keyFields[r.Intn(len(keyFields))]
 		} else {
 			key = &Fld{Name: g.fieldName(local), Desc: g.desc()}
-			switch r.Intn(4) {
-			case 0:
+			switch r.Intn(9) {
+			case 0, 1:
 				key.Kind, key.Type = FDyn, "string"
-			case 1:
+			case 2, 3:
 				key.Kind, key.Size = FFixed, 1+r.Intn(6)
+			case 4:
+				// a byte-wide key matched against one-character strings ('A' style message types)
+				key.Kind, key.Type = FBasic, r.Pick([]string{"char", "u8", "i8"})
+				key.Desc = "`one-char keys`"
+				key.charKeys = true
 			default:
 				key.Kind, key.Type = FBasic, r.Pick(intTypes)
 			}
@@ -495,7 +508,12 @@ func (g *gen) genPacket(names []string, idx int) *Pkt {
 			for k := 0; k < nk; k++ {
 				var ks string
 				for tries := 0; ; tries++ {
-					if key.Kind == FBasic {
+					if key.Kind == FBasic && key.charKeys {
+						ks = `"` + string(rune('A'+r.Intn(26))) + `"`
+						if tries > 20 {
+							ks = fmt.Sprintf(`"%c%d"`, 'A'+r.Intn(26), r.Intn(100))
+						}
+					} else if key.Kind == FBasic {
 						ks = fmt.Sprint(r.Intn(100 + tries*100))
 						if r.Chance(1, 8) {
 							ks = r.Pick([]string{"0", "00", "0"}) + ks // 01, 007, 010: legal DIGITS
@@ -633,6 +651,18 @@ type renderStyle struct {
 }
 
 func (p *Prog) Render() string {
+	text := p.renderLines()
+	switch p.Compact {
+	case 1:
+		return strings.Join(tokenize(text), " ") + "\n"
+	case 2:
+		// packets share source lines: every "}" that closes a packet is followed by the next one on the same line
+		return strings.ReplaceAll(text, "}\n\n", "} ")
+	}
+	return text
+}
+
+func (p *Prog) renderLines() string {
 	var b strings.Builder
 	opts := func() {
 		if p.NoOptBlock {
